@@ -153,15 +153,23 @@ def recursion_guard(ctx):
     ctx.need(len(inner) == 1, "R10.2", "_use_structure_parse: recursive helper not found")
     h = inner[0]
     rec = [c for c in ast.walk(h) if isinstance(c, ast.Call) and isinstance(c.func, ast.Name) and c.func.id == h.name]
-    data_driven = [c for c in rec if "event_defs[" in ast.unparse(c)]
+    # the id map: a dictionary of the enclosing function that the helper reads as a free variable
+    idmaps = {t.id for x in fn.body if isinstance(x, ast.Assign) for t in x.targets if isinstance(t, ast.Name)
+              and (isinstance(x.value, ast.Dict) or (isinstance(x.value, ast.Call) and call_name(x.value) == "dict"))}
+
+    def reads_map(node):
+        return any(isinstance(n, ast.Subscript) and isinstance(n.value, ast.Name) and n.value.id in idmaps for n in ast.walk(node)) \
+            or any(isinstance(n, ast.Call) and isinstance(n.func, ast.Attribute) and n.func.attr == "get" and isinstance(n.func.value, ast.Name) and n.func.value.id in idmaps for n in ast.walk(node))
+
+    data_driven = [c for c in rec if reads_map(c)]
     ctx.need(len(data_driven) >= 1, "R10.2", "recursive call through the id map not found")
     for c in data_driven:
         guarded = False
         p = getattr(c, "_parent", None)
         while p is not None and p is not h:
             if isinstance(p, ast.If):
-                t = ast.unparse(p.test)
-                if (" not in " in t or "depth" in t or "<" in t) and any(c is x for s in p.body for x in ast.walk(s)):
+                has_guard = any(isinstance(k, ast.Compare) and isinstance(k.ops[0], (ast.NotIn, ast.Lt, ast.LtE, ast.Gt, ast.GtE)) for k in ast.walk(p.test))
+                if has_guard and any(c is x for s in p.body for x in ast.walk(s)):
                     guarded = True
             p = getattr(p, "_parent", None)
         # the guard must be fed: the call passes a grown collection / depth
@@ -170,8 +178,9 @@ def recursion_guard(ctx):
                "recursive call %s; membership/depth guard: %s; guard state passed on: %s" % (ast.unparse(c)[:60], guarded, grows), c.lineno,
                "a use element referencing itself, an ancestor or a mutual cycle recurses without bound (RecursionError)")
     # dangling reference: KeyError on the id map is handled
-    ok = any(isinstance(t, ast.Try) and any("KeyError" in handler_types(x) or ALL in handler_types(x) for x in t.handlers) and "event_defs[" in ast.unparse(ast.Module(t.body, [])) for t in ast.walk(h)) \
-        or any(isinstance(s, ast.If) and " in event_defs" in ast.unparse(s.test) for s in ast.walk(h))
+    ok = any(isinstance(t, ast.Try) and any("KeyError" in handler_types(x) or ALL in handler_types(x) for x in t.handlers) and any(reads_map(b) for b in t.body) for t in ast.walk(h)) \
+        or any(isinstance(s, ast.If) and any(isinstance(c, ast.Compare) and isinstance(c.ops[0], ast.In) and isinstance(c.comparators[0], ast.Name) and c.comparators[0].id in idmaps for c in ast.walk(s.test))
+               for s in ast.walk(h))
     ctx.ob("R10.4", "SVG._use_structure_parse[missing id]", ok, "", h.lineno, "a dangling use reference must be skipped, not raise KeyError")
 
 
